@@ -186,7 +186,10 @@ func shapeOf(t *dptType) string {
 	if !ok2 {
 		uk, ok2 = matchTmpl(unpackPrefixTemplates, t.unpack, true)
 	}
-	unknown := func(why string) string { return fmt.Sprintf("Shape.unknown %q", why) }
+	unknown := func(why string) string {
+		noteIncomplete("datapoint type " + t.name + ": " + why)
+		return fmt.Sprintf("Shape.unknown %q", why)
+	}
 	if !ok1 {
 		return unknown("Pack body not recognised")
 	}
